@@ -555,6 +555,13 @@ def loader_wiring(ctx, f, ctor_names):
     return out, pos, call
 
 
+def _synonyms(e):
+    """exact synonyms on an expression built at rule time (after reading through locals): P[1:][0] is P[1], X[slice(a, b)] is X[a:b], .."""
+    import copy as _copy
+    from engine.normalize import _Synonyms
+    return ast.fix_missing_locations(_Synonyms().visit(_copy.deepcopy(e)))
+
+
 def serde_agreement(ctx, rule, save_q, load_q, table, ctor_names, positional=None):
     """table: {param or (param, i): writer expression text (after stripping encode/astype(str))}
     Obligations per entry: restored by the loader; the key read is written; the written value is
@@ -589,7 +596,7 @@ def serde_agreement(ctx, rule, save_q, load_q, table, ctor_names, positional=Non
             if isinstance(entry, str) or entry[1] >= len(keys):
                 raise AnalysisError(f"{site}: helper {h.site()} reads {keys}; cannot map them to `{name}`")
             key = keys[entry[1]]
-            wexpr = inline(W[("ds", key)], senv)
+            wexpr = _synonyms(inline(W[("ds", key)], senv))
             inner, wwrap = write_wrapper(wexpr)
             inner_s = strip_value_preserving(inner)
             okk = U(inner_s).replace(" ", "") == want.replace(" ", "") and not lossy_transformers(wexpr)
@@ -611,7 +618,7 @@ def serde_agreement(ctx, rule, save_q, load_q, table, ctor_names, positional=Non
         if (kind, key) not in W:
             ctx.bad(rule, site, f"loader reads {kind} `{key}` which the writer never writes (writes: {sorted(k for _, k in W)})")
             continue
-        wexpr = inline(W[(kind, key)], senv)
+        wexpr = _synonyms(inline(W[(kind, key)], senv))
         inner, wwrap = write_wrapper(wexpr)
         inner_s = strip_value_preserving(inner)
         if isinstance(inner_s, ast.Call) and (attr_tail(inner_s) or "") in {fn.name for fn in ctx.R.funcs.values()}:
@@ -1012,9 +1019,26 @@ def no_stale_memo(ctx, rule, owner="batchie.data.Screen", views=("batchie.data.S
             mutators[nm] = f
             state |= st
     ctx.need(mutators, f"{owner}: no mutating method (set_observed) found")
+    # views write into their screen as well (Plate.merge re-labels self.screen.plate_names / plate_ids in place): those attributes are
+    # mutable state of the screen too, with a mutator the screen's getters cannot see
+    external = {}
+    for vq in views:
+        for nm_, f_ in R.methods(vq).items():
+            hit = set()
+            for st_ in walk_own(f_.node):
+                tg_ = st_.targets if isinstance(st_, ast.Assign) else ([st_.target] if isinstance(st_, (ast.AugAssign, ast.AnnAssign)) else [])
+                for t_ in tg_:
+                    root = t_
+                    while isinstance(root, ast.Subscript):
+                        root = root.value
+                    if isinstance(root, ast.Attribute) and U(root.value) == "self.screen":
+                        hit.add(root.attr)
+            if hit:
+                external[f"{vq.rsplit('.', 1)[-1]}.{nm_}"] = (f_, hit)
+                state |= hit
     # getters of the owner whose value depends on mutable state (transitively through other getters / helper methods of the class)
     reads = {nm: _self_attr_reads(f.node) for nm, f in ms.items()}
-    dep = {nm for nm, r in reads.items() if r & state}
+    dep = {nm for nm, r in reads.items() if r & state} | {a_ for _, (_, hit_) in external.items() for a_ in hit_ if a_ in ms}
     grew = True
     while grew:
         grew = False
@@ -1046,6 +1070,14 @@ def no_stale_memo(ctx, rule, owner="batchie.data.Screen", views=("batchie.data.S
             cleared = by_deco and (f"'{nm}'" in text or f'"{nm}"' in text or f"{nm}.cache_clear" in text or f"del self.{nm}" in text)
             if not resets and not cleared:
                 problems.append((f, nm, mn, sorted(memo_attrs) or decos))
+        for en, (ef, hit_) in sorted(external.items()):
+            touched = hit_ & (reads[nm] | {a for d_ in dep & reads[nm] for a in reads.get(d_, ())} | (dep & reads[nm]))
+            if not touched:
+                continue
+            ext_resets = {x.attr for st_ in walk_own(ef.node) for t_ in (st_.targets if isinstance(st_, ast.Assign) else []) for x in [t_]
+                          if isinstance(x, ast.Attribute) and U(x.value) == "self.screen"}
+            if not (ext_resets & flags):
+                problems.append((f, nm, en, sorted(memo_attrs) or decos))
     for f, nm, mn, what in problems:
         ctx.bad(rule, f"{f.site()}::recomputed-after-{mn}", f"`{nm}` keeps its result ({what}) and `{mn}` does not reset it: after {mn}(..) the screen still answers with the value "
                 f"computed from the old observations")
